@@ -82,6 +82,28 @@ theorem commentOut_cases (o : Opts) (ext : Ext) (data text out : List Char) (h :
     | (cases h; done)
     | (right; right; rename_i inner hin; exact ⟨inner, hin, (ok_inj' h).symm⟩)
 
+/-- the recursion branch is taken only after html.go's own tests -/
+theorem commentOut_rec (o : Opts) (ext : Ext) (data text out : List Char) (h : commentOut o ext data text = .ok out)
+    (h1 : out ≠ []) (h2 : out ≠ data) :
+    (s "<!--[if ").isPrefixOf data = true ∧ (s "<![endif]-->").isSuffixOf data = true ∧ condBegin data < condEnd data := by
+  unfold commentOut at h
+  simp only [bind, Except.bind] at h
+  split at h
+  · exact absurd (ok_inj' h).symm h2
+  · split at h
+    · split at h
+      · split at h
+        · next hps =>
+          simp only [Bool.and_eq_true] at hps
+          split at h
+          · next hlt => exact ⟨hps.1, hps.2, hlt⟩
+          · exact absurd (ok_inj' h).symm h2
+        · exact absurd (ok_inj' h).symm h2
+      · split at h
+        · exact absurd (ok_inj' h).symm h2
+        · exact absurd (ok_inj' h).symm h1
+    · exact absurd (ok_inj' h).symm h1
+
 /-! ## the property -/
 
 def opener : List Char := ['<', '!', '-', '-']
@@ -161,6 +183,69 @@ theorem html_cond_comment_closed (P inner more : List Char)
     simpa [List.append_assoc] using this
   exact comment_reads_back m hs hm _ _ more (by simp [abruptStart]) hbody .normal
 
+/-- **the shape html.go establishes before it recurses**: a lexer-shaped comment token `<!--` text closer that starts with
+    `<!--[if `, ends with `<![endif]-->` and has its first `>` early enough is `<!--[` P `>` mid `<![endif]-->` with `>` not in P -/
+theorem cond_shape (data text cl : List Char) (hcl : Closer cl) (hd : data = opener ++ text ++ cl)
+    (hp : (s "<!--[if ").isPrefixOf data = true) (hs : (s "<![endif]-->").isSuffixOf data = true)
+    (hlt : condBegin data < condEnd data) :
+    ∃ P mid, '>' ∉ P ∧ text = '[' :: P ++ '>' :: mid ++ endifTail ∧ cl = ['-', '-', '>'] := by
+  obtain ⟨r1, hr1⟩ := List.isPrefixOf_iff_prefix.mp hp
+  obtain ⟨T, hT⟩ := List.isSuffixOf_iff_suffix.mp hs
+  have hsuf : s "<![endif]-->" = endifTail ++ ['-', '-', '>'] := by decide
+  have hpre : s "<!--[if " = opener ++ ['[', 'i', 'f', ' '] := by decide
+  -- the first `>`
+  have hsplit := (List.takeWhile_append_dropWhile (p := (· != '>')) (l := data)).symm
+  have hlenT : data.length = T.length + 12 := by rw [← hT, List.length_append, hsuf]; rfl
+  unfold condBegin condEnd at hlt
+  rw [hlenT] at hlt
+  simp only [Nat.add_sub_cancel] at hlt
+  cases hR : data.dropWhile (· != '>') with
+  | nil =>
+    rw [hR, List.append_nil] at hsplit
+    have : data.length = (data.takeWhile (· != '>')).length := by rw [← hsplit]
+    omega
+  | cons d R =>
+    have hdgt : d = '>' := by
+      have := Verif.Proofs.HtmlAttr.dropWhile_head _ _ _ _ hR
+      simpa using this
+    subst hdgt
+    rw [hR] at hsplit
+    -- T begins with takeWhile ++ ">"
+    have e : data.takeWhile (· != '>') ++ '>' :: R = T ++ s "<![endif]-->" := by rw [← hsplit, hT]
+    have e' : (data.takeWhile (· != '>') ++ ['>']) ++ R = T ++ s "<![endif]-->" := by simpa using e
+    rcases List.append_eq_append_iff.mp e' with ⟨mid, hTm, _⟩ | ⟨c', hc', _⟩
+    · -- the head
+      have htw : data.takeWhile (· != '>') = opener ++ '[' :: ('i' :: 'f' :: ' ' :: r1.takeWhile (· != '>')) := by
+        rw [← hr1, hpre, List.append_assoc]
+        rw [List.takeWhile_append_of_pos (by intro a ha; simp only [opener, List.mem_cons] at ha; rcases ha with e | e | e | e | e <;> first | (subst e; decide) | (cases e))]
+        rw [show (['[', 'i', 'f', ' '] ++ r1) = ['[', 'i', 'f', ' '] ++ r1 from rfl]
+        rw [List.takeWhile_append_of_pos (by intro a ha; simp only [List.mem_cons] at ha; rcases ha with e | e | e | e | e <;> first | (subst e; decide) | (cases e))]
+        simp
+      refine ⟨'i' :: 'f' :: ' ' :: r1.takeWhile (· != '>'), mid, ?_, ?_⟩
+      · intro hmem
+        have hall := Verif.Proofs.HtmlAttr.takeWhile_all (· != '>') data '>' (by rw [htw]; simp [hmem])
+        simp at hall
+      · -- compare the two decompositions of data
+        have hdata : data = opener ++ ('[' :: ('i' :: 'f' :: ' ' :: r1.takeWhile (· != '>')) ++ '>' :: mid ++ endifTail ++ ['-', '-', '>']) := by
+          rw [← hT, hTm, htw, hsuf]; simp [List.append_assoc]
+        rw [hd, List.append_assoc] at hdata
+        have hrest := List.append_cancel_left hdata
+        cases hcl with
+        | normal =>
+          have : text = '[' :: ('i' :: 'f' :: ' ' :: r1.takeWhile (· != '>')) ++ '>' :: mid ++ endifTail :=
+            List.append_cancel_right hrest
+          exact ⟨this, rfl⟩
+        | bang =>
+          exfalso
+          have h4 : endifTail ++ ['-', '-', '>'] = ['<', '!', '[', 'e', 'n', 'd', 'i', 'f'] ++ [']', '-', '-', '>'] := by decide
+          rw [List.append_assoc ('[' :: _ ++ _), h4, ← List.append_assoc] at hrest
+          have := (List.append_inj' hrest rfl).2
+          revert this; decide
+    · exfalso
+      have : (data.takeWhile (· != '>') ++ ['>']).length = (T ++ c').length := by rw [hc']
+      simp only [List.length_append, List.length_cons, List.length_nil] at this
+      omega
+
 /-- the full statement: every comment the model writes for a lexer-shaped comment token is one comment token -/
 def html_comment_closed_full : Prop :=
   ∀ (o : Opts) (ext : Ext) (data text out cl : List Char), Closer cl → data = opener ++ text ++ cl →
@@ -173,14 +258,13 @@ def html_comment_closed_full : Prop :=
     exactly ONE comment token of the HTML standard, after which the tokenizer is in the data state again — under the
     GUARD that the text does not start with `>` / `->` (K-C09-HTML-1) and the CONTRACT that a recursive result holds no
     `-->` / `--!>` (K-C09-HTML-3 shows the real code violates it).  The shape `<!--[P>mid<![endif]-->` with `>` not in `P`
-    is what html.go's own tests (`HasPrefix "<!--[if "`, `HasSuffix "<![endif]-->"`, `begin < end`) establish before it
-    recurses; here it is a hypothesis (`hshape`) for that branch. -/
+    that the recursion branch needs follows from html.go's own tests (`HasPrefix "<!--[if "`, `HasSuffix "<![endif]-->"`,
+    `begin < end`): `cond_shape`. -/
 theorem html_comment_closed_partial (o : Opts) (ext : Ext) (data text out cl more : List Char) (hcl : Closer cl)
     (hd : data = opener ++ text ++ cl) (hc : hasClose text = false)
     (h : commentOut o ext data text = .ok out) (hne : out ≠ [])
     (ha : abruptStart text = false)
     (hext : ∀ inp res, callExt ext "html" inp = .ok res → hasClose res = false)
-    (hshape : out ≠ data → ∃ P mid, '>' ∉ P ∧ text = '[' :: P ++ '>' :: mid ++ endifTail ∧ cl = ['-', '-', '>'])
     (m : M) (hs : m.s = .text) (hm : m.mode = .data) :
     ∃ body, runO m (out ++ more) = [.comment body] ++ runO m more ∧ runS m out = m := by
   rcases commentOut_cases o ext data text out h with e | e | ⟨inner, hin, e⟩
@@ -188,7 +272,8 @@ theorem html_comment_closed_partial (o : Opts) (ext : Ext) (data text out cl mor
   · subst e; exact ⟨text, html_comment_kept_closed _ text cl more hcl hd hc ha m hs hm⟩
   · by_cases hod : out = data
     · rw [hod]; exact ⟨text, html_comment_kept_closed _ text cl more hcl hd hc ha m hs hm⟩
-    · obtain ⟨P, mid, hP, ht, hcl'⟩ := hshape hod
+    · obtain ⟨hp, hs', hlt⟩ := commentOut_rec o ext data text out h hne hod
+      obtain ⟨P, mid, hP, ht, hcl'⟩ := cond_shape data text cl hcl hd hp hs' hlt
       subst hcl'
       have hdata : data = opener ++ '[' :: P ++ '>' :: mid ++ endifTail ++ ['-', '-', '>'] := by
         rw [hd, ht]; simp [List.append_assoc]
